@@ -981,7 +981,10 @@ func valueRows(fn *ssa.Function, v ssa.Value, at *ssa.BasicBlock, loops bool) ([
 						pc = pc.and(mkLit(cv, pos))
 					}
 				}
-				walk(e, p, simplify(pc), depth+1)
+				// the conditions between the phi's block and the block in which the value is
+				// used, as they read for a path that entered through p (tests of sibling phis -
+				// the other results of an expanded helper - are decided by p's operands)
+				walk(e, p, simplify(suffixCond(pb, b, p, pc)), depth+1)
 			}
 			return
 		}
@@ -989,6 +992,109 @@ func valueRows(fn *ssa.Function, v ssa.Value, at *ssa.BasicBlock, loops bool) ([
 	}
 	walk(v, at, conds[at], 0)
 	return rows, nil
+}
+
+// suffixCond: the condition under which control, having entered block q through predecessor p
+// under condition pc, reaches block `at` (dominated by q). Forward edges only. An If that
+// tests a phi of q is decided by the operand the phi has for p.
+func suffixCond(q, at, p *ssa.BasicBlock, pc DNF) DNF {
+	if q == at || !q.Dominates(at) {
+		return pc
+	}
+	pi := -1
+	for i, pp := range q.Preds {
+		if pp == p {
+			if pi >= 0 {
+				return pc // ambiguous edge
+			}
+			pi = i
+		}
+	}
+	if pi < 0 {
+		return pc
+	}
+	// blocks of the region in reverse postorder
+	var order []*ssa.BasicBlock
+	seen := map[*ssa.BasicBlock]bool{}
+	var dfs func(b *ssa.BasicBlock)
+	dfs = func(b *ssa.BasicBlock) {
+		seen[b] = true
+		for _, s := range b.Succs {
+			if !seen[s] && !s.Dominates(b) && q.Dominates(s) && s != q {
+				dfs(s)
+			}
+		}
+		order = append(order, b)
+	}
+	dfs(q)
+	for i, j := 0, len(order)-1; i < j; i, j = i+1, j-1 {
+		order[i], order[j] = order[j], order[i]
+	}
+	cond := map[*ssa.BasicBlock]DNF{q: pc}
+	edge := func(from, to *ssa.BasicBlock) DNF {
+		fc := cond[from]
+		if len(fc) == 0 {
+			return nil
+		}
+		iff, isIf := lastIf(from)
+		if !isIf || from.Succs[0] == from.Succs[1] {
+			return fc
+		}
+		pos := from.Succs[0] == to
+		if phi, eval, isTest := PhiTest(iff.Cond); isTest && phi.Block() == q && pi < len(phi.Edges) {
+			e := phi.Edges[pi]
+			if val, known := eval(e, p); known {
+				if val == pos {
+					return fc
+				}
+				return nil
+			}
+			if _, trueMeansNil, isNil := NilCheck(iff.Cond); isNil {
+				l := nilLit(e)
+				l.Pos = pos == trueMeansNil
+				return fc.and(l)
+			}
+			if cv, neg := BoolCond(iff.Cond); cv == ssa.Value(phi) {
+				ev, eneg := BoolCond(e)
+				lp := pos
+				if neg {
+					lp = !lp
+				}
+				if eneg {
+					lp = !lp
+				}
+				return fc.and(mkLit(ev, lp))
+			}
+		}
+		cv, neg := BoolCond(iff.Cond)
+		if neg {
+			pos = !pos
+		}
+		return fc.and(mkLit(cv, pos))
+	}
+	for _, b := range order {
+		if b == q {
+			continue
+		}
+		var d DNF
+		for _, pr := range b.Preds {
+			if !seen[pr] || b.Dominates(pr) {
+				continue
+			}
+			d = d.or(edge(pr, b))
+		}
+		cond[b] = simplify(d)
+		if len(cond[b]) > maxTerms {
+			return pc
+		}
+	}
+	if d, ok := cond[at]; ok && len(d) > 0 {
+		return d
+	}
+	if _, reached := cond[at]; reached {
+		return nil // the value cannot reach `at` through p
+	}
+	return pc
 }
 
 // Subst returns the parameter substitution of a frame chain: each entered helper's parameters
